@@ -49,8 +49,12 @@ func OverlappingTables(tables []TableMeta, kr KeyRange) (int, int) {
 	left := sort.Search(len(tables), func(i int) bool {
 		return utils.CompareKeys(kr.Left, tables[i].MaxKey) <= 0
 	})
+	// The first table that starts after the range ends: compare with the
+	// table's smallest key. (Comparing with its largest key misses a table that
+	// strictly contains the range, and the compaction output would then be
+	// installed next to it with overlapping key ranges.)
 	right := sort.Search(len(tables), func(i int) bool {
-		return utils.CompareKeys(kr.Right, tables[i].MaxKey) < 0
+		return utils.CompareKeys(kr.Right, tables[i].MinKey) < 0
 	})
 	return left, right
 }
